@@ -1707,7 +1707,6 @@ lop_parity_check		(cache_page *		cvtp,
 				case 0x01: /* G1 block mosaic character */
 				case 0x02: /* G3 smooth mosaic or line drawing character */
 				case 0x0B: /* G3 smooth mosaic or line drawing character */
-				case 0x08: /* modified G0 and G2 character set designation */
 				case 0x09: /* G0 character */
 				case 0x0D: /* drcs character invocation */
 				case 0x0F: /* G2 character */
